@@ -282,6 +282,14 @@ class InMemoryStorage(BaseStorage):
             if values is not None:
                 trial.values = values
 
+            if state == TrialState.WAITING:
+                # A trial put back to WAITING must be found again by the WAITING fast path
+                # of `get_all_trials`.
+                study_id = self._trial_id_to_study_id_and_number[trial_id][0]
+                self._prev_waiting_trial_number[study_id] = min(
+                    self._prev_waiting_trial_number[study_id], trial.number
+                )
+
             if state == TrialState.RUNNING:
                 trial.datetime_start = datetime.now()
 
